@@ -277,22 +277,43 @@ fn mem_violation(oracle: &str, msg: String) -> Violation {
 }
 
 /// growth rule shared by the leak modes: live bytes after iterations 3, 4, 5, 6 of an identical
-/// life must not keep growing (the first two iterations absorb one-off capacity effects)
-fn leak_verdict(live: &[usize], what: &str) -> Option<Violation> {
-    let n = live.len();
-    let steady = &live[n - 4..];
-    let grows_every_time = steady.windows(2).all(|w| w[1] > w[0]);
-    if grows_every_time {
-        let per_iteration = (steady[3] - steady[0]) / 3;
-        Some(mem_violation(
-            "mem:leak-per-create-run-drop",
-            format!(
-                "process memory grows by about {per_iteration} bytes every time {what} (live bytes after each of the last four identical iterations: {steady:?})"
-            ),
-        ))
-    } else {
-        None
+/// life must not keep growing (the first two iterations absorb one-off capacity effects). Growth
+/// in three consecutive iterations is a suspicion only: a real per-life leak grows in EVERY
+/// iteration, amortised capacity growth somewhere in the process does not, so a suspicion is
+/// confirmed by eight more iterations that must each grow as well.
+const LEAK_ITERATIONS: usize = 6;
+const LEAK_CONFIRMATIONS: usize = 8;
+
+fn leak_check(one: &mut dyn FnMut() -> Result<usize, Violation>, what: &str) -> Option<Violation> {
+    let mut live = vec![];
+    for _ in 0..LEAK_ITERATIONS {
+        match one() {
+            Ok(l) => live.push(l),
+            Err(v) => return Some(v),
+        }
     }
+    let grows = |xs: &[usize]| xs.windows(2).all(|w| w[1] > w[0]);
+    if !grows(&live[LEAK_ITERATIONS - 4..]) {
+        return None;
+    }
+    for _ in 0..LEAK_CONFIRMATIONS {
+        match one() {
+            Ok(l) => live.push(l),
+            Err(v) => return Some(v),
+        }
+    }
+    let steady = &live[LEAK_ITERATIONS - 4..];
+    if !grows(steady) {
+        return None;
+    }
+    let per_iteration = (steady[steady.len() - 1] - steady[0]) / (steady.len() - 1);
+    Some(mem_violation(
+        "mem:leak-per-create-run-drop",
+        format!(
+            "process memory grows by about {per_iteration} bytes every time {what} (live bytes after each of the last {} identical iterations: {steady:?})",
+            steady.len()
+        ),
+    ))
 }
 
 /// several runtimes of one program, created / run / serviced / dropped in an interleaved order
@@ -374,20 +395,18 @@ pub fn evaluate(
             let mut violations = first.violations.clone();
             if violations.is_empty() {
                 let trace = first.trace.clone();
-                let mut live = vec![];
-                for _ in 0..6 {
+                let mut one = || -> Result<usize, Violation> {
                     let r = run_once(mk, Source::Trace(trace.clone()), &spec.opts);
-                    let faults = r.violations.clone();
+                    let fault = r.violations.first().cloned();
                     drop(r);
-                    live.push(crate::mem::live());
-                    if let Some(v) = faults.first() {
-                        violations.push(v.clone());
-                        break;
+                    // the hooks' own tables are not part of what is measured
+                    abra_core::verif::reset();
+                    match fault {
+                        Some(v) => Err(v),
+                        None => Ok(crate::mem::live()),
                     }
-                }
-                if violations.is_empty()
-                    && let Some(v) = leak_verdict(&live, "this runtime life (create, run under this schedule, drop at this point) is repeated")
-                {
+                };
+                if let Some(v) = leak_check(&mut one, "this runtime life (create, run under this schedule, drop at this point) is repeated") {
                     violations.push(v);
                 }
             }
@@ -408,20 +427,19 @@ pub fn evaluate(
                 quarantine: false,
                 selfcheck_every: 0,
             });
-            let mut live = vec![];
-            for _ in 0..6 {
-                if let Err(e) = life_history_once(mk, *seed, *ops) {
-                    violations.push(mem_violation(
+            let mut one = || -> Result<usize, Violation> {
+                let r = life_history_once(mk, *seed, *ops);
+                abra_core::verif::reset();
+                match r {
+                    Err(e) => Err(mem_violation(
                         "fault:host-panic",
                         format!("panic during a create / run / drop history of several runtimes: {}", e.lines().next().unwrap_or("")),
-                    ));
-                    break;
+                    )),
+                    Ok(()) => Ok(crate::mem::live()),
                 }
-                abra_core::verif::reset();
-                live.push(crate::mem::live());
-            }
+            };
             if violations.is_empty()
-                && let Some(v) = leak_verdict(&live, "this interleaved history of creating, running and dropping up to four runtimes is repeated")
+                && let Some(v) = leak_check(&mut one, "this interleaved history of creating, running and dropping up to four runtimes is repeated")
             {
                 violations.push(v);
             }
